@@ -55,9 +55,22 @@ def same_floats(a, b):
 
 def view_of(obj, what):
     try:
-        return nopanic("memoryview(%s)" % what, memoryview, obj)
+        v = nopanic("memoryview(%s)" % what, memoryview, obj)
     except ORDINARY as e:
         raise Violation("%s:buffer-refused" % what, "memoryview() raised %s: %s" % (type(e).__name__, e))
+    # buffer protocol: len == product(shape) * itemsize — the size of the logical contents
+    n = v.itemsize
+    for d in v.shape:
+        n *= d
+    if v.nbytes != n:
+        raise Violation("%s:buffer-nbytes" % what, "view.nbytes = %r but shape %r x itemsize %d = %d bytes of logical content" % (v.nbytes, tuple(v.shape), v.itemsize, n))
+    try:
+        raw = v.tobytes()
+    except BaseException as e:  # noqa
+        raise Violation("%s:buffer-tobytes" % what, "view.tobytes() raised %s: %s" % (type(e).__name__, e))
+    if len(raw) != n:
+        raise Violation("%s:buffer-tobytes" % what, "tobytes() gives %d bytes for %d bytes of logical content" % (len(raw), n))
+    return v
 
 
 # ----------------------------------------------------------------------------- sub-checks
@@ -82,8 +95,8 @@ def striped_view_check(striped, idx, wild, what, info):
     r, model = striped_model(idx, wild)
     if v.format != "B" or v.itemsize != 1 or v.ndim != 2:
         raise Violation("%s:buffer-format" % what, "format=%r itemsize=%r ndim=%r" % (v.format, v.itemsize, v.ndim))
-    if v.shape[0] != 32 or v.shape[1] < r:
-        raise Violation("%s:buffer-shape" % what, "shape %r for %d sequence rows of 32 columns" % (tuple(v.shape), r))
+    if tuple(v.shape) != (32, r):
+        raise Violation("%s:buffer-shape" % what, "shape %r; the logical contents are 32 columns x %d sequence rows (look-ahead rows are not symbols of the sequence)" % (tuple(v.shape), r))
     cells = v.tolist()
     for c in range(32):
         for i in range(r):
@@ -246,6 +259,7 @@ SUBS = [
 
 ASSUMPTIONS = [
     "an index that does not fit a machine integer may raise OverflowError instead of IndexError (CPython's own behaviour for sequences)",
-    "the StripedSequence view must show the R sequence rows; if it shows more rows they must be look-ahead rows (whether they are exposed is not specified)",
+    "the StripedSequence view shows exactly the R sequence rows: look-ahead rows added for scoring are scaffolding, not symbols of the sequence (the shipped code records the shape at construction, so this holds on the unchanged tree)",
+    "view.nbytes / tobytes() must agree with shape x itemsize (PEP 3118: len = product(shape) * itemsize)",
     "a memoryview kept across a calculate() that reallocates the matrix cannot be checked without a sanitised CPython (stated limit of this technique here)",
 ]
